@@ -11,7 +11,7 @@ RUN_MODULE = "Spec.TTLMap Model.DecorSimple Run.C02"
 EXPLAIN = "explain"
 RULE = ("(simple) 1-25 calls of a function f(x, y=0) decorated with cache(ttl, condition) through the facade: argument tuples from a small "
         "alphabet in every call form, advances around ttl on a 1/16 s grid, scripted behaviour per execution in {fresh int, None, 0, '', [], "
-        "raise A, raise B, raise a subclass of A, raise CancelledError}, conditions {all, not_none, bool callable, truthy non-bool callable, with_exceptions(A), only_exceptions(A)}, ttl "
+        "raise A, raise B, raise a subclass of A, raise CancelledError}, conditions {all (every spelling: None / 'all' / any / 'any' / typing.Any), not_none / skip_none, bool callable (which also checks that it is handed the call's own arguments and key), truthy non-bool callable, with_exceptions(A), only_exceptions(A)}, ttl "
         "spelled as int / float / timedelta / '<n>s' or '1m' string / callable of the arguments / callable with result=; (iter) the same for "
         "cache.iterator over scripted async generators (items incl. falsy ones, optional raise at the end, optional virtual time passing "
         "between items); (ttl) ttl_to_seconds on component strings ('1d2h3m50s' style, spaces, upper case) and malformed strings. "
@@ -41,11 +41,23 @@ SCRIPT = ["fresh", "fresh", "fresh", None, 0, "", [], "raiseA", "raiseB", "raise
 ARGS = [(1, 0), (1, 5), (2, 0), ("a", 0)]
 
 
-def cond_py(name):
+CUR = {}        # the call being made: the condition callables check that they are handed its own arguments and key
+
+
+def _args_ok(a, k, key):
+    want = CUR.get("args")
+    if want is None:
+        return True
+    got = list(a) + [k[n] for n in sorted(k)]
+    return isinstance(key, str) and all(any(type(g) is type(w) and g == w for w in want) for g in got)
+
+
+def cond_py(name, variant=0):
+    import typing
     from cashews import only_exceptions, with_exceptions
-    if name == "all": return None
-    if name == "not_none": return "not_none"
-    if name == "truthy": return lambda r, a, k, key=None: bool(r)
+    if name == "all": return [None, "all", any, "any", typing.Any][variant % 5]          # every spelling of "store everything"
+    if name == "not_none": return ["not_none", "skip_none"][variant % 2]
+    if name == "truthy": return lambda r, a, k, key=None: bool(r) if _args_ok(a, k, key) else not bool(r)
     if name == "nonbool": return lambda r, a, k, key=None: 1 if r else 0
     if name == "with_exc": return with_exceptions(ExcA)
     return only_exceptions(ExcA)
@@ -78,6 +90,10 @@ def ttl_py(spelling, ticks):
     if spelling in ("float", "int", "str"): return float(ticks) / 16
     if spelling == "timedelta": return _td(ticks)
     if spelling == "callable": return lambda *a, **k: n
+    if spelling == "callable_strict":        # takes the call's own parameters only: ttl_to_seconds first tries result=..., gets TypeError, then calls it without
+        def g(x, y=0):
+            return n
+        return g
     if spelling == "callable_result":
         def f(*a, result=None, **k):
             return _td(ticks)
@@ -95,8 +111,8 @@ def gen_cases(rng, tier):
         for _ in range(rng.randint(1, 25)):
             adv = rng.choice([0, 0, 0, 8, T - 2, T, T + 2, 2 * T, 2]) if rng.random() < 0.6 else 0
             calls.append([adv, rng.randrange(len(ARGS)), rng.choice(["pos", "kw", "mixed", "omit"])])
-        cases.append({"kind": "simple", "secs": secs, "spelling": rng.choice(["int", "float", "timedelta", "str", "callable", "callable_result"]),
-                      "cond": rng.choice(CONDS), "calls": calls, "script": [rng.choice(SCRIPT) for _ in range(26)]})
+        cases.append({"kind": "simple", "secs": secs, "spelling": rng.choice(["int", "float", "timedelta", "str", "callable", "callable_result", "callable_strict"]),
+                      "cond": rng.choice(CONDS), "cond_variant": rng.randrange(10), "calls": calls, "script": [rng.choice(SCRIPT) for _ in range(26)]})
     for _ in range(n // 2):
         T = rng.choice([16, 32, 48, 24, 16 * 90000])
         secs = T / 16
@@ -156,7 +172,8 @@ def run_impl(case):
         ex = {"n": 0}
         steps = []
         ttl = ttl_py(case["spelling"], round(case["secs"] * 16))
-        cond = cond_py(case["cond"])
+        cond = cond_py(case["cond"], case.get("cond_variant", 0))
+        CUR.clear()
         await asyncio.sleep(TICK)
         if kind == "simple":
             @cache(ttl=ttl, condition=cond)
@@ -172,6 +189,7 @@ def run_impl(case):
             for adv, ai, form in case["calls"]:
                 if adv: await asyncio.sleep(adv * TICK)
                 x, y = ARGS[ai]
+                CUR["args"] = [x, y]
                 before = ex["n"]
                 try:
                     if form == "pos": r = await f(x, y)
